@@ -541,6 +541,28 @@ pub fn inject(p: &mut Program, which: usize, u: &mut Unstructured) -> bool {
                     ops,
                 })
             };
+            if chance(u, 80) {
+                // two bases with the same simple name in two other modules (files of their own);
+                // the redeclared operation comes from the later-listed one, directly or through a
+                // middle interface
+                let ma = format!("{base}ModA");
+                let mb = format!("{base}ModB");
+                for (m, o) in [(&ma, "first"), (&mb, "ping")] {
+                    let idx = p.files.len();
+                    p.files.push(FileM {
+                        path: format!("string-{idx}"),
+                        file_attrs: vec![],
+                        module: Some(ModuleM { attrs: vec![], path: vec![m.clone()] }),
+                        defs: vec![iface("Base", vec![], vec![op(o), op(&format!("only{o}"))])],
+                    });
+                }
+                let (a, b) = (format!("::{ma}::Base"), format!("::{mb}::Base"));
+                return if chance(u, 128) {
+                    add_def(p, iface(&mid, vec![&b], vec![op("mid")])) && add_def(p, iface(&derived, vec![&a, &mid], vec![op("ping")]))
+                } else {
+                    add_def(p, iface(&derived, vec![&a, &b], vec![op("x"), op("ping")]))
+                };
+            }
             if !add_def(p, iface(&base, vec![], vec![op("ping"), op("other")])) {
                 return false;
             }
@@ -688,9 +710,35 @@ pub fn inject(p: &mut Program, which: usize, u: &mut Unstructured) -> bool {
                 }
                 "attribute-repeated" => {
                     let mut s = StructM {
-                        name: n,
+                        name: n.clone(),
                         ..Default::default()
                     };
+                    if sel < 3 {
+                        // on an operation: another non-repeatable attribute between the two uses
+                        let between = [AttrM::new("slicedFormat", &["Args"]), AttrM::new("deprecated", &[]), AttrM::new("oneway", &[])][sel % 3].clone();
+                        let mut o = OpM {
+                            pre: Prelude::default(),
+                            idempotent: false,
+                            name: "op".into(),
+                            params: vec![],
+                            ret: RetM::None,
+                        };
+                        o.pre.attrs.push(AttrM::new("compress", &["Args"]));
+                        o.pre.attrs.push(between);
+                        if chance(u, 128) {
+                            o.pre.attrs.push(AttrM::new("cs::x", &[]));
+                        }
+                        o.pre.attrs.push(AttrM::new("compress", &["Return"]));
+                        return add_def(
+                            p,
+                            DefM::Interface(InterfaceM {
+                                pre: Prelude::default(),
+                                name: n,
+                                bases: vec![],
+                                ops: vec![o],
+                            }),
+                        );
+                    }
                     s.pre.attrs.push(AttrM::new("deprecated", &[]));
                     s.pre.attrs.push(AttrM::new("cs::x", &[]));
                     s.pre.attrs.push(AttrM::new("deprecated", &["again"]));
